@@ -339,6 +339,17 @@ where
                 }
             }
 
+            'π' | 'τ' | 'ϕ' => {
+                // The symbols that `Display for Constants` prints
+                let constant = match ch {
+                    'π' => Constants::Pi,
+                    'τ' => Constants::Tau,
+                    _ => Constants::Phi,
+                };
+                tokens.push(Token::Constant(constant));
+                chars.next();
+            }
+
             '(' => {
                 tokens.push(Token::LParen);
                 chars.next();
